@@ -136,6 +136,8 @@ def pyval(v):
         return o
     if isinstance(v, dict) and list(v) == ["eqv"]:
         return EqV(v["eqv"])
+    if isinstance(v, dict) and list(v) == ["fs"]:
+        return frozenset(pyval(x) for x in v["fs"])
     if isinstance(v, list):
         return [pyval(x) for x in v]
     if isinstance(v, int) and not isinstance(v, bool) and abs(v) > 256:
@@ -153,6 +155,8 @@ def norm(v):
         return {"t": [norm(x) for x in v]}
     if isinstance(v, list):
         return [norm(x) for x in v]
+    if isinstance(v, frozenset):
+        return {"fs": sorted((norm(x) for x in v), key=lambda x: json.dumps(x, sort_keys=True))}
     if isinstance(v, Obj):
         return {"obj": v.i}
     if isinstance(v, EqV):
@@ -1544,6 +1548,9 @@ def evaluate_conc(ctx, cases, degraded, info):
 # --------------------------------------------------------------------------- generators
 
 P = lambda *a: ["call", list(a), []]
+TU = lambda *a: {"t": list(a)}  # a tuple VALUE
+FS = lambda *a: {"fs": list(a)}  # a frozenset VALUE
+KW = lambda a, **k: ["call", list(a), [[n, v] for n, v in k.items()]]
 BIG = 2**61 - 1
 FAMILIES = {
     "pos": [P(0), P(1), P(2)],
@@ -1579,7 +1586,24 @@ FAMILIES = {
     # numeric limits: equal-but-not-identical big ints (re-created per call), 2**63 vs 2**63 - 1, and their float neighbour
     "limits": [P(2**63), P(2**63 - 1), P(-(2**63))],
     "limits_f": [P(2**53), P(2**53 + 1), P(float(2**53))],
+    # look-alikes: DIFFERENT argument lists that a carelessly built key confuses - the positional part with the keyword part
+    # (a trailing positional (name, value) 2-tuple / a tuple of such items vs the keyword name=value), a nested tuple vs flat
+    # arguments, an empty tuple / empty kwargs vs nothing.  For every keyword call f(*A, k=v) also f(*A, (k, v)) and f(*A, ((k, v),)).
+    "look_kw": [KW([], x=1), P(TU("x", 1)), P(TU(TU("x", 1)))],
+    "look_mixed": [KW([1], x=2), P(1, TU("x", 2)), P(1, TU(TU("x", 2)))],
+    "look_two": [KW([], x=1, y=2), P(TU("x", 1), TU("y", 2)), KW([TU("x", 1)], y=2)],
+    "look_two_b": [KW([], x=1, y=2), P(TU(TU("x", 1), TU("y", 2))), KW([TU("y", 2)], x=1)],
+    "look_nest": [P(TU(1, 2)), P(1, 2), P(TU(TU(1, 2)))],
+    "look_nest_kw": [KW([], x=TU(1, 2)), P(TU("x", TU(1, 2))), P("x", TU(1, 2))],
+    "look_empty": [P(), P(TU()), P(TU(), TU())],
+    "look_empty_b": [P(TU(TU())), KW([], x=TU()), P(TU("x", TU()))],
+    "look_split": [KW([0], x=1), KW([], x=1), P(0, "x", 1)],
+    # the key ITSELF as an argument: (args, items) of another call passed positionally ...
+    "look_self": [KW([0], x=1), P(TU(0), TU(TU("x", 1))), P(TU(TU(0), TU(TU("x", 1))))],
+    # ... and with the frozenset of the keyword items as a positional VALUE
+    "look_fs": [KW([0], x=1), P(0, FS(TU("x", 1))), P(TU(0), FS(TU("x", 1)))],
 }
+LOOKALIKE = sorted(f for f in FAMILIES if f.startswith("look_"))
 # five distinct keys: the only histories on which max_size 3 and 4 ever evict
 WIDE = [P(0), P(1), P(2), P(3), P(4)]
 ADV = [["adv", 5], ["adv", VALID], ["adv", VALID + 1]]
@@ -1827,6 +1851,8 @@ def run(ctx):
     complete = True
     for fam in sorted(FAMILIES):
         length = ctx.scale(5 if fam == "pos" else 4, 6 if fam in ("pos", "kw") else 5)
+        if fam in LOOKALIKE:
+            length = ctx.scale(3, 4)  # two calls already tell a look-alike apart; eleven families
         n, ok = _batched(ctx, exhaustive_seq(fam, length, thorough), evaluate_seq)
         scope.append("%s: length %d (%d histories)" % (fam, length, n))
         complete = complete and ok
